@@ -23,9 +23,11 @@ Clauses (ids):
                             after handing every queued datapoint to metricGenerated, in order
   delivered_at_quiescence   connected, not paused, all timers fired  =>  queue empty
   stop_after_drain          after an orderly stop the connection is closed only with an empty queue
-  relay-paused-at-quiescence (C09) all timers fired, full signalled and not yet followed by a
-                            space signal, although the queue is below the low watermark
-                            (id D8 when a dynamic router dropped the destination while it was full)
+  relay-paused-at-quiescence (C09) all timers fired, at least one destination in the router, receivers
+                            paused (cacheFull / pauseReceivingMetrics not followed by cacheSpaceAvailable /
+                            resumeReceivingMetrics) although the queue is below the low watermark
+                            (id D8 when a dynamic router dropped the destination while it was full and it
+                            has not come back; configurations with a second destination in the router)
 """
 import argparse
 import itertools
@@ -143,16 +145,21 @@ def run_sequence(C, cfg, seq, stop):
   from twisted.internet.task import Clock
   C.reactor = Clock()
   instrumentation.stats.clear()
-  sig = {'full': False, 'd8': False}
+  sig = {'full': False, 'd8': False, 'paused': False}
   reinj = []
-  events.cacheFull.handlers[:] = [lambda: sig.__setitem__('full', True)]
-  events.cacheSpaceAvailable.handlers[:] = [lambda: sig.__setitem__('full', False)]
+  # the relay service wires cacheFull -> pauseReceivingMetrics and cacheSpaceAvailable ->
+  # resumeReceivingMetrics; 'paused' is what the listeners see
+  events.cacheFull.handlers[:] = [lambda: sig.update(full=True, paused=True)]
+  events.cacheSpaceAvailable.handlers[:] = [lambda: sig.update(full=False, paused=False)]
   events.metricGenerated.handlers[:] = [lambda m, dp: reinj.append((m, dp))]
-  events.pauseReceivingMetrics.handlers[:] = []
-  events.resumeReceivingMetrics.handlers[:] = []
+  events.pauseReceivingMetrics.handlers[:] = [lambda: sig.update(paused=True)]
+  events.resumeReceivingMetrics.handlers[:] = [lambda: sig.update(paused=False)]
   dest = ('127.0.0.1', 2004, 'a')
   router = Router()
   router.addDestination(dest)
+  for i in range(cfg.get('others', 0)):
+    # further destinations of the relay (healthy, with empty queues: they never pause anything)
+    router.addDestination(('127.0.0.%d' % (i + 2), 2004, 'b'))
   f = (C.CarbonPickleClientFactory if cfg['proto'] == 'pickle' else C.CarbonLineClientFactory)(dest, router)
   f.clock = C.reactor
   f.started = True
@@ -274,9 +281,12 @@ def run_sequence(C, cfg, seq, stop):
         [(n, u) for (n, a, u) in closes if a and (n or u)],))
     if connected and not p.paused and len(f.queue) > 0:
       raise Fail('delivered_at_quiescence', 'connected, not paused, all timers fired, but %d datapoints stay queued' % len(f.queue))
-    if sig['full'] and len(f.queue) < low:
-      raise Fail('D8' if sig['d8'] else 'relay-paused-at-quiescence',
-                 'all timers fired, receivers paused by this queue (full signalled, no space signal since) although it holds %d < low watermark %r' % (len(f.queue), low))
+    if sig['paused'] and router.countDestinations() > 0 and len(f.queue) < low:
+      # D8 (known): the destination was dropped while full and has not come back
+      d8 = sig['d8'] and not router.hasDestination(dest)
+      raise Fail('D8' if d8 else 'relay-paused-at-quiescence',
+                 'all timers fired, %d destination(s) in the router%s, receivers still paused (no resume / space signal since the last pause) although this queue holds %d < low watermark %r' % (
+                   router.countDestinations(), ' including this one' if router.hasDestination(dest) else '', len(f.queue), low))
   except Fail as e:
     return (e.fid, e.what)
   except Exception as e:        # the real code raised
@@ -294,6 +304,9 @@ def grid(thorough):
             if proto == 'line' and (per == 2 or not flow):
               continue
             out.append({'proto': proto, 'mx': mx, 'low': low, 'hard': hardpct, 'flow': flow, 'per': per, 'dyn': dyn, 'retries': retries})
+            if dyn and flow and per != 2:
+              # the same with a second destination in the router
+              out.append(dict(out[-1], others=1))
             if flow and dyn and retries == 0 and per in (2, 500) and mx >= 2:
               for interval in ((0, 1000000) if thorough else (0,)):
                 out.append({'proto': proto, 'mx': mx, 'low': low, 'hard': hardpct, 'flow': flow, 'per': per, 'dyn': dyn, 'retries': retries,
@@ -396,6 +409,8 @@ CLAUSE_TO_IDS = {
   'no_raise': ['no_raise'], 'no_AlreadyCalledError': ['no_raise'],
   'I_bp_relay': ['relay-paused-at-quiescence'], 'signals_space_iff_full_was_signalled': ['relay-paused-at-quiescence'],
   'rearm': ['relay-paused-at-quiescence'],
+  'first_destination_back_resumes_receivers': ['relay-paused-at-quiescence'],
+  'rejoining_destination_releases_its_full_signal': ['relay-paused-at-quiescence'],
 }
 
 
